@@ -106,13 +106,42 @@ def add_atom(g, a):
     raise ValueError(a)
 
 
+def shared_cdr_chain(g, root):
+    """structural feature of a recipe graph: some pair P has as cdr a pair A referenced more than once whose cdr is
+       again a pair referenced more than once (two consecutive list cells that both need a datum label)"""
+    indeg = {}
+    seen, stack = set(), [root]
+    indeg[root] = 1
+    while stack:
+        i = stack.pop()
+        if i in seen:
+            continue
+        seen.add(i)
+        for c in g.n[i - 1][1]:
+            indeg[c] = indeg.get(c, 0) + 1
+            stack.append(c)
+    def sp(i):
+        return g.n[i - 1][0] == "pair" and indeg.get(i, 0) > 1
+    for i in seen:
+        if g.n[i - 1][0] == "pair":
+            a = g.n[i - 1][1][1]
+            if sp(a) and sp(g.n[a - 1][1][1]):
+                return True
+    return False
+
+
 class Cases:
     def __init__(self):
         self.cases = []
 
     def add(self, cls, g, root=1, cyc=0, mask=W_ALL, note=None):
+        if cls.startswith(("tlc-graph", "graph-")) and shared_cdr_chain(g, root):
+            cls += "+shared-cdr-chain"
         cid = len(self.cases) + 1
-        self.cases.append({"id": cid, "cls": cls, "g": g.json(root), "cyc": cyc, "mask": mask,
+        # the abstract reader is run on the text of every case except two of three of the big sweep vectors
+        big = len(g.n) > 200 and cls.split(":")[0] in ("flo-half", "flo-pow2-ulp", "flo-random", "flo-subnormal", "char-u1", "char-u2", "char-u3", "char-u4")
+        self.sweep = getattr(self, "sweep", 0) + (1 if big else 0)
+        self.cases.append({"id": cid, "cls": cls, "g": g.json(root), "cyc": cyc, "mask": mask, "tr": (not big) or self.sweep % 3 == 0,
                            "recipe": "(%d %d (%d %d) %s)" % (cid, root, cyc, mask, g.recipe()), "note": note})
         return cid
 
@@ -141,7 +170,7 @@ def uclass(cp):
 # ------------------------------------------------------------------------------------------------
 def gen_numbers(cs, rng, thorough):
     ints = [0, 1, -1, 9, 10, -10, 255, 256, 1023, 1024, -1024, 99999, 10 ** 9, 2 ** 31 - 1, 2 ** 31, -2 ** 31]
-    for k in (30, 31, 32, 52, 53, 60, 61, 62, 63, 64, 65, 66, 127, 128, 129, 255, 256, 511, 512, 1023, 1024, 2047):
+    for k in (30, 31, 32, 52, 53, 60, 61, 62, 63, 64, 65, 66, 127, 128, 129, 255, 256, 512) + ((1023, 1024, 2047) if thorough else ()):
         ints += [2 ** k, 2 ** k - 1, 2 ** k + 1, -2 ** k, -2 ** k - 1, -2 ** k + 1]
     for k in range(1, 70 if not thorough else 320, 1 if not thorough else 3):
         ints += [10 ** k, 10 ** k - 1, -10 ** k]
@@ -176,11 +205,11 @@ def gen_numbers(cs, rng, thorough):
     # inexact complex, ordinary parts; parts printed with an exponent are a class of their own
     plain = [0.5, 1.0, -1.5, 2.25, 12345.678, -3.75, 0.1, 123.456, 1024.0, -0.001]
     expo = [1e21, 1e-7, -2.5e-10, 6.02e23, 1e100, -1e-300]
-    for i in range(120 if thorough else 40):
-        ca, cb = rng.choice(["plain", "exp"]), rng.choice(["plain", "exp"])
-        a = rng.choice(plain if ca == "plain" else expo) * rng.choice([1, 3, 7])
-        b = rng.choice(plain if cb == "plain" else expo) * rng.choice([1, 3, 7])
-        cs.atom("cpx-inexact-real-%s-imag-%s" % (ca, cb), ("cpx", ("flo", dbits(a)), ("flo", dbits(b))), note="%r %r" % (a, b))
+    for ca, la in (("plain", plain), ("exp", expo)):
+        for cb, lb in (("plain", plain), ("exp", expo)):
+            for a in la:
+                for b in lb:
+                    cs.atom("cpx-inexact-real-%s-imag-%s" % (ca, cb), ("cpx", ("flo", dbits(a)), ("flo", dbits(b))), note="%r %r" % (a, b))
     # inexact complex with non-finite or signed-zero parts
     specials = {"pinf": 0x7FF0000000000000, "ninf": 0xFFF0000000000000, "nan": 0x7FF8000000000000,
                 "nzero": 0x8000000000000000, "pzero": 0, "one": dbits(1.0), "mone": dbits(-1.5)}
@@ -286,7 +315,7 @@ def gen_strings(cs, rng, thorough):
     alpha = S("ab\\\"|;#x41 \n\t\r\a\b") + [0, 1, 27, 127, 128, 255, 0x3BB, 0x10000]
     for i in range(600 if thorough else 120):
         cs.atom("str-random", ("str", [rng.choice(alpha) for _ in range(rng.randint(0, 12))]))
-    for n in (127, 128, 129, 255, 256, 600):
+    for n in (127, 128, 129, 255, 256) + ((1000,) if thorough else ()):
         cs.atom("str-long", ("str", [rng.choice(S("abc \\\"\n") + [0x3BB]) for _ in range(n)]), note="length %d" % n)
 
 
@@ -441,7 +470,7 @@ def gen_trees(cs, rng, thorough):
         if len(g.n) <= 400:
             cs.add("tree-depth%d" % d, g, root=r)
     # long and deep
-    for n in (1, 2, 100, 1000):
+    for n in (1, 2, 100, 300) + ((2000,) if thorough else ()):
         g = G()
         prev = None
         for j in range(n):
@@ -577,7 +606,7 @@ def lex(t):
     i = 0
 
     def emit(ty, j):
-        toks.append({"t": ty, "s": t[i:j]})
+        toks.append({"t": ty, "s": t[i:j], "o": i + 1})
         return j
     while i < n:
         c = t[i]
@@ -666,7 +695,8 @@ def make_trace(path, cases, by, kind):
             for e in evs:
                 if e["e"] == "Write":
                     e = dict(e)
-                    e["tok"] = lex(e["t"])
+                    e["nt"] = 0 if c.get("tr", True) else 1
+                    e["tok"] = lex(e["t"]) if e["nt"] == 0 else []
                 elif e["e"] == "Text":
                     e = dict(e)
                     e["tok"] = lex(e["t"])
@@ -683,21 +713,18 @@ def validate(sc, path, timeout=1500):
     summ = None
     r.details = {}
     r.textcls = {}
-    for line in r.out.splitlines():
-        m = re.match(r'<<"C08DETAIL", (\d+), "([^"]*)", "([^"]*)", (\d+), (\d+)>>', line)
-        if m:
-            r.details[(int(m.group(1)), m.group(2), m.group(3))] = (int(m.group(4)), int(m.group(5)))
-        m = re.match(r'<<"C08TEXT", (\d+), "([^"]*)", "([^"]*)", "([^"]*)">>', line)
-        if m:
-            r.textcls.setdefault(int(m.group(1)), {"j": m.group(2)})[m.group(3)] = m.group(4)
-        m = re.match(r'<<"C08REJECT", (\d+), "([^"]*)", "([^"]*)", "([^"]*)">>', line)
-        if m:
-            t = (int(m.group(1)), m.group(2), m.group(3), m.group(4))
-            if t not in rej:
-                rej.append(t)
-        m = re.match(r'<<"C08SUMMARY", (\d+), (\d+), (\d+), (\d+), (\d+)>>', line)
-        if m:
-            summ = [int(x) for x in m.groups()]
+    out = r.out           # TLC wraps long tuples over several lines
+    for m in re.finditer(r'<<\s*"C08DETAIL",\s*(\d+),\s*"([^"]*)",\s*"([^"]*)",\s*(\d+),\s*(\d+)\s*>>', out):
+        r.details[(int(m.group(1)), m.group(2), m.group(3))] = (int(m.group(4)), int(m.group(5)))
+    for m in re.finditer(r'<<\s*"C08TEXT",\s*(\d+),\s*"([^"]*)",\s*"([^"]*)",\s*"([^"]*)"\s*>>', out):
+        r.textcls.setdefault(int(m.group(1)), {"j": m.group(2)})[m.group(3)] = m.group(4)
+    for m in re.finditer(r'<<\s*"C08REJECT",\s*(\d+),\s*"([^"]*)",\s*"([^"]*)",\s*"([^"]*)"\s*>>', out):
+        t = (int(m.group(1)), m.group(2), m.group(3), m.group(4))
+        if t not in rej:
+            rej.append(t)
+    m = re.search(r'<<\s*"C08SUMMARY",\s*(\d+),\s*(\d+),\s*(\d+),\s*(\d+),\s*(\d+),\s*(\d+)\s*>>', out)
+    if m:
+        summ = [int(x) for x in m.groups()]
     consumed = r.rc == 0 and not r.error and not r.violated and summ is not None
     return r, rej, summ, consumed
 
@@ -705,6 +732,8 @@ def validate(sc, path, timeout=1500):
 def shard(cases, by, maxbytes=2_500_000):
     """split into groups of cases with a bounded amount of recorded data"""
     groups, cur, size = [], [], 0
+    k = max(1, len(cases) // 40)
+    cases = [c for j in range(k) for c in cases[j::k]]          # interleave the classes over the shards
     for c in cases:
         s = sum(len(e.get("t", ())) * 4 + 60 * len(e.get("g", {}).get("n", ())) + 120 for e in by.get(c["id"], [])) + 200
         if cur and size + s > maxbytes:
@@ -727,7 +756,9 @@ def campaign(chk, sc, build, cases, kind, label, jobs_drv=8, jobs_tlc=6):
         k, ch = args
         lines = [c["recipe"] if kind == "rt" else c["textline"] for c in ch]
         return run_driver(build, sc, kind, lines, "%s_%d" % (label, k), timeout=1500)
+    t0 = time.time()
     results = vlib.parallel(drv, list(enumerate(chunks)), jobs=jobs_drv)
+    chk.cov.setdefault("timing_s", {})["driver_" + label] = round(time.time() - t0, 1)
     by = {}
     for (rc, evs, err), ch in zip(results, chunks):
         b, info = case_events(evs)
@@ -760,7 +791,8 @@ def campaign(chk, sc, build, cases, kind, label, jobs_drv=8, jobs_tlc=6):
         r, rej, summ, consumed = validate(sc, path)
         return grp, path, r, rej, summ, consumed
     rejs = []
-    tot = [0, 0, 0, 0, 0]
+    tot = [0, 0, 0, 0, 0, 0]
+    t0 = time.time()
     details, textcls = {}, {}
     chk.c08_details, chk.c08_textcls = details, textcls
     for grp, path, r, rej, summ, consumed in vlib.parallel(val, list(enumerate(groups)), jobs=jobs_tlc):
@@ -774,58 +806,75 @@ def campaign(chk, sc, build, cases, kind, label, jobs_drv=8, jobs_tlc=6):
             raise Broken("trace of %d cases but TLC counted %d" % (len(grp), summ[0]))
         tot = [a + b for a, b in zip(tot, summ)]
         rejs += rej
+        chk.cov["timing_s"].setdefault("tlc_shards_" + label, []).append(round(r.seconds, 1))
+    chk.cov["timing_s"]["tlc_" + label] = round(time.time() - t0, 1)
     return rejs, tot, by
 
 
 def report_rejections(chk, sc, build, cases, rejs, by, kind):
     """group TLC's rejections by structural key, confirm one representative per key in isolation, report"""
     cmap = {c["id"]: c for c in cases}
-    GROUP = {"not-equal": "value-differs", "not-iso": "value-differs", "read-error": "read-error", "read-malformed": "value-differs",
-             "text-not-equal": "text-wrong", "text-not-iso": "text-wrong", "text-syntax": "text-wrong", "text-lex": "text-wrong",
-             "readers-differ-outcome": "readers-differ", "readers-differ-datum": "readers-differ", "no-end": "crash-or-hang",
-             "text-not-consumed": "text-not-consumed", "write-error": "write-error"}
-    WFAM = {"native": "native-writer", "simple": "native-writer", "write": "srfi38-writer", "shared": "srfi38-writer", "text": "given-text", "": "-"}
+    GROUP = {"not-equal": "roundtrip", "not-iso": "roundtrip", "read-error": "roundtrip", "read-malformed": "roundtrip", "text-not-consumed": "roundtrip",
+             "text-not-equal": "text", "text-not-iso": "text", "text-syntax": "text", "text-lex": "text",
+             "readers-differ-outcome": "readers-differ", "readers-differ-datum": "readers-differ", "no-end": "crash-or-hang"}
+    WFAM = {"native": "native-writer", "simple": "native-writer", "write": "srfi38-writer", "shared": "srfi38-writer"}
     percase = {}
     for cid, why, w, r in rejs:
         percase.setdefault(cid, []).append((why, w, r))
     keys = {}
     for cid, ls in percase.items():
         c = cmap[cid]
+        groups = {}
         for why, w, r in ls:
-            grp = GROUP.get(why, why)
-            key = "%s:%s:%s" % (c["cls"], grp, WFAM.get(w, w))
-            if grp in ("value-differs", "read-error"):
-                # name the reader only if the other reader handles the same text correctly
-                other = [x for x in ls if GROUP.get(x[0], x[0]) == grp and x[1] == w and x[2] != r]
-                if not other:
-                    key += ":reader=" + r
-            keys.setdefault(key, []).append((cid, why, w, r))
-    confirmed = 0
+            groups.setdefault(GROUP.get(why, why), []).append((why, w, r))
+        for grp, members in groups.items():
+            key = "%s:%s" % (c["cls"], grp)
+            fams = set(WFAM[w] for _, w, _ in members if w in WFAM)
+            if len(fams) == 1:
+                key += ":" + fams.pop() + "-only"
+            if grp == "roundtrip":
+                readers = set(r for _, _, r in members)
+                if len(readers) == 1:
+                    key += ":reader=" + readers.pop()
+            keys.setdefault(key, []).extend((cid,) + m for m in members)
+    # confirm one representative per key: a fresh driver process and a fresh TLC run over all representatives together
+    reps = {}
     for key, ls in sorted(keys.items()):
         ls.sort()
-        cid = ls[0][0]
-        c = cmap[cid]
-        # confirm: fresh driver run of this single case, fresh TLC run
-        rc, evs, err = run_driver(build, sc, kind, [c["recipe"] if kind == "rt" else c["textline"]], "confirm_%d" % cid, timeout=300)
+        reps[key] = ls[0]
+    rcases = sorted(set(v[0] for v in reps.values()))
+    confirmed = 0
+    if rcases:
+        sub = [cmap[i] for i in rcases]
+        rc, evs, err = run_driver(build, sc, kind, [c["recipe"] if kind == "rt" else c["textline"] for c in sub], "confirm_" + kind, timeout=600)
         b, _ = case_events(evs)
-        if cid not in b:
-            b[cid] = [{"e": "Begin", "id": cid}]
-        path = sc.file("confirm_%d.ndjson" % cid)
-        make_trace(path, [c], b, kind)
-        r, rej2, summ, consumed = validate(sc, path, timeout=600)
+        for c in sub:
+            if c["id"] not in b:       # crashed: isolate by running alone
+                rc1, evs1, err1 = run_driver(build, sc, kind, [c["recipe"] if kind == "rt" else c["textline"]], "confirm1_%d" % c["id"], timeout=300)
+                b1, _ = case_events(evs1)
+                b[c["id"]] = b1.get(c["id"], [{"e": "Begin", "id": c["id"]}])
+        path = sc.file("confirm_%s.ndjson" % kind)
+        make_trace(path, sub, b, kind)
+        r, rej2, summ, consumed = validate(sc, path, timeout=900)
         if not consumed:
             raise Broken("confirmation run not consumed: %s" % r.out[-1500:])
-        same = [t for t in rej2 if t[1:] == ls[0][1:]]
-        if not same:
-            chk.cov.setdefault("unconfirmed_rejections", []).append({"key": key, "first": ls[0], "second": rej2})
-            continue
-        confirmed += 1
-        content = {"key": key, "kind": kind, "case": {k: v for k, v in c.items()}, "reason": ls[0][1], "writer": ls[0][2], "reader": ls[0][3],
-                   "other_cases_with_this_key": len(ls) - 1, "events": b[cid],
-                   "texts": {e["w"]: "".join(chr(x) for x in e["t"]) for e in b[cid] if e["e"] in ("Write",)},
-                   "how": "./check C08 --replay <this file> re-runs the case on a fresh build and lets TLC judge it"}
-        chk.report(key, "%s (%d case(s)); first: case %d %s writer=%s reader=%s %s" % (
-            ls[0][1], len(ls), cid, c["cls"], ls[0][2], ls[0][3], c.get("note") or ""), "c08_%s.json" % re.sub(r"[^A-Za-z0-9_.-]", "_", key)[:100], content)
+        rej2 = set(rej2)
+        for key, first in sorted(reps.items()):
+            ls = keys[key]
+            cid = first[0]
+            c = cmap[cid]
+            if first not in rej2:
+                chk.cov.setdefault("unconfirmed_rejections", []).append({"key": key, "first": first})
+                continue
+            confirmed += 1
+            det = getattr(chk, "c08_details", {}).get((cid, first[2], first[3]))
+            content = {"key": key, "kind": kind, "case": c, "reason": first[1], "writer": first[2], "reader": first[3],
+                       "cases_with_this_key": len(set(t[0] for t in ls)), "differing_nodes_of": det, "events": b[cid],
+                       "texts": {e["w"]: "".join(chr(x) for x in e["t"])[:2000] for e in b[cid] if e["e"] == "Write"},
+                       "how": "./check C08 --replay <this file> re-runs the case on a fresh build and lets TLC judge it"}
+            chk.report(key, "%s (%d case(s)); first: case %d writer=%s reader=%s %s%s" % (
+                first[1], len(set(t[0] for t in ls)), cid, first[2], first[3], (c.get("note") or "")[:60],
+                (" [%d of %d nodes differ]" % det) if det else ""), "c08_%s.json" % re.sub(r"[^A-Za-z0-9_.-]", "_", key)[:100], content)
     return keys, confirmed
 
 
@@ -833,28 +882,28 @@ def report_rejections(chk, sc, build, cases, rejs, by, kind):
 # texts for the reader-agreement part
 # ------------------------------------------------------------------------------------------------
 VALID_TEXTS = [
-    # numbers with prefixes
+    "@number",
     "#e1.5", "#i1/2", "#x1F", "#b101", "#o17", "#d10", "#x-1f", "#e1e3", "#i5", "#xAbC", "#e#x10", "#x#e10", "#i#b11", "#X1f", "#E1.5", "#I5", "1e3", "1E3", "-1.5e-3", ".5", "+.5", "-.5", "5.",
     "1e400", "-1e400", "1e-400", "+inf.0", "-inf.0", "+nan.0", "1+2i", "1-2i", "-i", "+i", "+2i", "1/2+3/4i", "1.5+2.5i", "1@0", "123456789012345678901234567890", "-123456789012345678901234567890",
     "1/2", "-1/2", "2/4", "10/5", "+5", "-0", "-0.0", "0.0", "00012", "#e-0.5", "#i-1/3", "#e1e-3", "#b-101/11", "#o-17", "#x10/F", "#e1.25e2", "#d1.5", "#d#e1.5", "#e#d1.5",
-    # booleans, empty things, abbreviations
+    "@misc",
     "#t", "#f", "#true", "#false", "()", "#()", "#u8()", "#u8(0 1 255)", "#u8(#xFF #b1 #o7)", "'a", "`a", ",a", ",@a", "'()", "''a", "'(a . b)", "`(a ,b ,@c)", "'#(a)", "'\"s\"", "' a",
-    # comments and white space
+    "@comment",
     "; c\na", "#;a b", "#;(a b) c", "#|x|#a", "#|a#|b|#c|#d", " a ", "\ta\n", "(a #;b)", "(a #;b . c)", "(a . #;b c)", "(a ;x\n b)", "(a #|x|# b)", "", " ", ";", "; only a comment", "#;a", "#|x|#", "a;b",
     "#;#;a b c", "(#;a)", "#(#;a)", "#;()a",
-    # datum labels
+    "@label",
     "#0=a", "(#0=a #0#)", "#0=(a . #0#)", "#1=(a #1#)", "#10=(a #10#)", "(#0=(a) #1=(b) #0# #1#)", "#0=#(#0#)", "#0=(#1=(#0# #1#))", "(#0=\"s\" #0#)", "(#0=#u8(1) #0#)", "#0=(a b . #0#)",
     "(#0=(a) . #0#)", "#(#0=(a) #0# #0#)", "#0=(#0# . #0#)", "(#1=(a) #0=(b) #1# #0#)", "'#0=(a . #0#)", "(#0=(a) #;#0# #0#)",
-    # lists and dots
+    "@list",
     "(1 .5)", "(1 . 5)", "(a . b)", "(a b . c)", "(a . (b . (c . ())))", "(a .b)", "(1 .a)", "(a.b)", "a.b", "...", "(a ... b)", "(a . ...)", "(... . a)", "((a))", "(() ())", "(()())", "(a(b)c)", "(a\"b\"c)",
     "#(a #(b) ())", "(a . b )", "( a . b)", "(a .\nb)", "(a\n.\nb)",
-    # strings
+    "@string",
     "\"a\\\nb\"", "\"a\\  \n  b\"", "\"\\a\\b\\t\\n\\r\\\"\\\\\"", "\"\\x41;\"", "\"\\x3bb;\"", "\"\\x0;\"", "\"\\x00041;\"", "\"\\x10FFFF;\"", "\"a|b\"", "\"\\|\"", "\"\\t\\t\"", "\"\"",
     "\"\u03bb\"", "\"\U0001F600\"", "\"a\nb\"", "\"tab\there\"", "\"a;b\"", "\"(\"", "\"#|\"",
-    # symbols
+    "@symbol",
     "abc", "ABC", "|ABC|", "|a b|", "||", "|a\\x41;b|", "|\\x3bb;|", "|\\||", "|a\\tb|", "|a\\nb|", "|\u03bb|", "\u03bb", "a\u03bb", "!$%&*/:<=>?^_~", "+", "-", "->", "-a", "+a", "+.a", "-..", "..",
     "a1", "a+b", "a-b", "a@b", "<=?", "set!", "list->vector", "+soup+", "V17a", "|two words|", "|two\\x20;words|", "|\\x41;|", "the-word-recursion-has-many-meanings",
-    # characters
+    "@char",
     "#\\a", "#\\A", "#\\space", "#\\newline", "#\\x41", "#\\x", "#\\(", "#\\)", "#\\;", "#\\\"", "#\\ ", "#\\\u03bb", "#\\\U00010000", "#\\\U0010FFFF", "#\\\u00e9", "#\\\uffff", "#\\null", "#\\alarm", "#\\backspace", "#\\delete",
     "#\\escape", "#\\return", "#\\tab", "#\\x0", "#\\x3bb", "#\\x10FFFF", "#\\x03BB", "#\\#", "#\\'", "#\\|", "#\\\\", "#\\1", "#\\x1", "(#\\a #\\b)", "(#\\a)", "#(#\\()", "#\\t", "#\\n", "#\\s",
 ]
@@ -896,13 +945,17 @@ def gen_texts(rng, written, thorough):
             j, k = sorted((rng.randrange(len(t)), rng.randrange(len(t))))
             m, cls = t[:j] + t[k:] + t[j:k], "mut-swap"
         out.append((cls, "total", m))
+    section = "misc"
     for s in VALID_TEXTS:
-        out.append(("valid", "agree", S(s)))
-        if len(s) > 1:
-            out.append(("truncated", "truncated", S(s)[:rng.randrange(1, len(s))]))
+        if s.startswith("@"):
+            section = s[1:]
+            continue
+        out.append(("valid-" + section, "agree", S(s)))
+        for k in range(1, len(s)):
+            out.append(("truncated", "truncated", S(s)[:k]))
     for s in MALFORMED_TEXTS:
         out.append(("malformed", "total", S(s)))
-    for d in (100, 1000, 10000) + ((100000,) if thorough else ()):
+    for d in (100, 1000) + ((10000,) if thorough else ()):
         out.append(("deep-open", "truncated", S("(" * d)))
         out.append(("deep-vector-open", "truncated", S("#(" * d)))
         out.append(("deep-nest", "agree", S("(" * d + "a" + ")" * d)))
@@ -913,42 +966,31 @@ def gen_texts(rng, written, thorough):
         out.append(("long-string", "agree", S("\"" + "ab\\n" * d + "\"")))
         out.append(("long-symbol", "agree", S("x" * d)))
         out.append(("long-integer", "agree", S("1" + "0" * d)))
-    # number syntax, generated from the R7RS grammar (valid by construction); the class names the features used
-    for i in range(3000 if thorough else 600):
-        radix = rng.choice(["", "", "", "", "#x", "#b", "#o", "#d"])
-        exact = rng.choice(["", "", "", "#e", "#i"])
-        pre = rng.choice([radix + exact, exact + radix])
-        upper = rng.random() < 0.15 and pre != ""
-        if upper:
-            pre = pre.upper()
-        dig = {"#x": "0123456789abcdefABCDEF", "#b": "01", "#o": "01234567"}.get(radix, "0123456789")
-        kinds = []
-
-        def ureal():
-            n = rng.randint(1, rng.choice([3, 6, 25]))
-            body = "".join(rng.choice(dig) for _ in range(n))
-            c = rng.random()
-            if c < 0.2:
-                body += "/" + rng.choice(dig.replace("0", "") or "1") + "".join(rng.choice(dig) for _ in range(rng.randint(0, 4)))
-                kinds.append("ratio")
-            elif c < 0.45 and radix in ("", "#d"):
-                body += "." + "".join(rng.choice(dig) for _ in range(rng.randint(0, 6)))
-                if rng.random() < 0.3:
-                    body += "e" + rng.choice(["", "+", "-"]) + str(rng.randint(0, 30))
-                kinds.append("decimal")
-            elif c < 0.55 and radix in ("", "#d"):
-                body += "e" + rng.choice(["", "+", "-"]) + str(rng.randint(0, 30))
-                kinds.append("decimal")
-            else:
-                kinds.append("bigint" if n > 15 else "int")
-            return body
-        txt = pre + rng.choice(["", "+", "-"]) + ureal()
-        shape = "real"
-        if rng.random() < 0.15:
-            txt += rng.choice(["+", "-"]) + rng.choice([ureal(), ""]) + "i"
-            shape = "complex"
-        cls = "number-%s-%s%s%s%s" % (shape, "+".join(sorted(set(kinds))), "-radix" if radix else "", "-" + exact[1] + "prefix" if exact else "", "-uppercase" if upper else "")
-        out.append((cls, "agree", S(txt)))
+    # number syntax from the R7RS grammar (valid by construction), every combination of features; the class names them
+    bodies = {"": {"int": ["7", "123", "0"], "bigint": ["123456789012345678901234567890"], "ratio": ["3/4", "10/4", "123456789012345678901/7"],
+                   "decimal": ["1.5", ".25", "3.", "1e3", "2.5e-3"], "decimal-long": ["1234567890123456789012345.678", "1.2345678901234567e+25", "4.35e-30"]},
+              "#d": None,
+              "#x": {"int": ["1f", "A0", "0"], "bigint": ["123456789abcdefABCDEF0123456789"], "ratio": ["a/f", "10/8"]},
+              "#b": {"int": ["101", "0"], "bigint": ["1" + "01" * 40], "ratio": ["101/11"]},
+              "#o": {"int": ["17", "0"], "bigint": ["7654321" * 5], "ratio": ["17/5"]}}
+    bodies["#d"] = bodies[""]
+    extra = rng.sample(range(10 ** 6), 3) if thorough else []
+    for radix in ("", "#d", "#x", "#b", "#o"):
+        for exact in ("", "#e", "#i"):
+            for pre in sorted(set([radix + exact, exact + radix])):
+                for upper in (False, True):
+                    if upper and not pre:
+                        continue
+                    p = pre.upper() if upper else pre
+                    for kind, bl in sorted(bodies[radix].items()):
+                        for shape in ("real", "complex"):
+                            cls = "number-%s%s%s%s" % (shape, "-radix" if radix else "", "-" + exact[1] + "prefix" if exact else "", "-uppercase" if upper else "")
+                            for j, bdy in enumerate(bl):
+                                for sign in ("", "-") if j == 0 else ("",):
+                                    txt = p + sign + bdy
+                                    if shape == "complex":
+                                        txt += "-" + bl[(j + 1) % len(bl)] + "i"
+                                    out.append((cls, "agree", S(txt)))
     return out
 
 
@@ -984,12 +1026,17 @@ def run():
         gen_strings(cs, rng, thorough)
         gen_symbols(cs, rng, thorough)
         cases = cs.cases
+        timing = chk.cov.setdefault("timing_s", {})
+        timing["generate"] = round(time.time() - chk.t0, 1)
         rejs, tot, by = campaign(chk, sc, build, cases, "rt", "rt", jobs_drv=8, jobs_tlc=6 if not thorough else 10)
+        timing["roundtrip_campaign"] = round(time.time() - chk.t0, 1)
         keys, confirmed = report_rejections(chk, sc, build, cases, rejs, by, "rt")
+        timing["roundtrip_confirm"] = round(time.time() - chk.t0, 1)
         rejected_cases = set(t[0] for t in rejs)
         chk.cov["roundtrip_cases"] = len(cases)
         chk.cov["roundtrip_cases_rejected"] = len(rejected_cases)
         chk.cov["writes_validated"] = tot[1]
+        chk.cov["texts_read_by_abstract_reader"] = tot[5]
         chk.cov["reads_validated"] = tot[2]
         chk.cov["rejection_keys"] = {k: len(v) for k, v in sorted(keys.items())}
         classes = {}
@@ -1000,7 +1047,7 @@ def run():
         nchar = sum(sum(1 for nd in c["g"]["n"] if nd["k"] == "char") for c in cases)
         chk.cov["flonums_round_tripped"] = nflo
         chk.cov["char_data_round_tripped"] = nchar
-        if tot[2] < 4 * len(cases) or tot[1] < 2 * len(cases) or nflo < 60000:
+        if tot[2] < 4 * len(cases) or tot[1] < 2 * len(cases) or nflo < 60000 or tot[5] < len(cases):
             raise Broken("vacuous run: %s reads / %s writes for %d cases, %d flonums" % (tot[2], tot[1], len(cases), nflo))
         for c in cases:
             if c["cls"] in ("graph-ring", "tree-depth4", "sym:bar-or-backslash", "cpx-exact") and c["id"] not in rejected_cases:
@@ -1018,7 +1065,9 @@ def run():
             tcases.append({"id": cid, "cls": "text-" + cls, "judge": judge, "t": t, "textline": "(%d %s)" % (cid, " ".join(str(x) for x in t)),
                            "note": "".join(chr(x) for x in t)[:80]})
         trejs, ttot, tby = campaign(chk, sc, build, tcases, "txt", "txt", jobs_drv=8, jobs_tlc=6)
+        timing["text_campaign"] = round(time.time() - chk.t0, 1)
         tkeys, tconf = report_rejections(chk, sc, build, tcases, trejs, tby, "txt")
+        timing["text_confirm"] = round(time.time() - chk.t0, 1)
         chk.cov["text_cases"] = len(tcases)
         chk.cov["text_reads_validated"] = ttot[3]
         chk.cov["text_rejection_keys"] = {k: len(v) for k, v in sorted(tkeys.items())}
@@ -1034,6 +1083,7 @@ def run():
             if r.distinct < 100:
                 raise Broken("%s: vacuous model run (%d states)" % (name, r.distinct))
             chk.add_mc(name, r)
+        timing["mc_done"] = round(time.time() - chk.t0, 1)
         chk.cov["exhaustive"] = False
         chk.cov["traces_validated_against_impl"] = (len(cases) - len(rejected_cases)) + (len(tcases) - len(set(t[0] for t in trejs)))
         chk.cov["evaluations"] = tot[1] + tot[2] + ttot[3]
